@@ -1,6 +1,6 @@
 (* Correspondence checker for slices S-crdt-{counter,map,list}: the events the
    harness executed on real replicas, with what it observed, replayed on the model. *)
-From Orda.Model Require Import Base Time Ops Counter Map List Datatype Replicas.
+From Orda.Model Require Import Base Time Ops Counter Map List Datatype Replicas Snapshot.
 Open Scope N_scope.
 
 (* observed results in a datatype-independent form *)
@@ -33,13 +33,15 @@ Section Check.
   Variable k_view : St -> val.
   Variable k_size : St -> Z.
   Variable k_res : ret -> res.
+  Variable k_marshal : St -> jsnap.
 
   Inductive ev :=
   | ELocal (r : nat) (c : call) (o : obs) (view : val) (size : Z)
   | ETx (r : nat) (tag : str) (cs : list call) (fail : bool) (os : list obs) (view : val) (size : Z)
   | EPush (r : nat) (ops : list op)
   | EDeliver (r : nat) (n : nat) (ok : bool) (view : val) (size : Z)
-  | ERecv (r : nat) (ops : list op) (ok : bool) (view : val) (size : Z).   (* a raw batch, cursor untouched *)
+  | ERecv (r : nat) (ops : list op) (ok : bool) (view : val) (size : Z)    (* a raw batch, cursor untouched *)
+  | ESnap (r : nat) (j : jsnap) (i : opid).                                (* GetMetaAndSnapshot: marshalled snapshot and operation id *)
 
   Notation sysT := (@sys St call J).
 
@@ -87,6 +89,11 @@ Section Check.
             | RError _ _ _ d' => if negb ok && state_ok d' view size then Some (set_rep St call J s r (mkRep d' (r_cur x))) else None
             | _ => None
             end
+        | None => None
+        end
+    | ESnap r j i =>
+        match get_rep St call J s r with
+        | Some x => if jsnap_eqb (k_marshal (d_snap (r_dt x))) j && opid_eqb (d_oid (r_dt x)) i then Some s else None
         | None => None
         end
     end.
@@ -138,6 +145,7 @@ Section Check.
             end
         | None => DNone
         end
+    | ESnap r j i => DNone
     end.
   Fixpoint run_diag (s : sysT) (es : list ev) (i : nat) : option (nat * ev * diag) :=
     match es with
@@ -159,6 +167,7 @@ Arguments ETx {call}.
 Arguments EPush {call}.
 Arguments EDeliver {call}.
 Arguments ERecv {call}.
+Arguments ESnap {call}.
 Arguments mkHist {call}.
 
 (* ---------- instances ---------- *)
@@ -175,21 +184,21 @@ Definition id_ {A} (x : A) := x.
 Definition cev := ev ccall.
 Definition chist := hist ccall.
 Definition check_counter : chist -> bool :=
-  check_hist cstate ccall val cstate c_init c_validate c_local' c_exec_remote id_ id_ c_view (fun s => s) RVal.
+  check_hist cstate ccall val cstate c_init c_validate c_local' c_exec_remote id_ id_ c_view (fun s => s) RVal c_marshal.
 Definition explain_counter :=
-  diagnose cstate ccall val cstate c_init c_validate c_local' c_exec_remote id_ id_ c_view (fun s => s) RVal.
+  diagnose cstate ccall val cstate c_init c_validate c_local' c_exec_remote id_ id_ c_view (fun s => s) RVal c_marshal.
 
 Definition mev := ev mcall.
 Definition mhist := hist mcall.
 Definition m_res (r : option val) : res := match r with Some v => RVal v | None => RNil end.
 Definition check_map : mhist -> bool :=
-  check_hist mstate mcall (option val) mstate m_init m_validate m_local' m_exec_remote id_ id_ m_view m_size m_res.
+  check_hist mstate mcall (option val) mstate m_init m_validate m_local' m_exec_remote id_ id_ m_view m_size m_res m_marshal.
 Definition explain_map :=
-  diagnose mstate mcall (option val) mstate m_init m_validate m_local' m_exec_remote id_ id_ m_view m_size m_res.
+  diagnose mstate mcall (option val) mstate m_init m_validate m_local' m_exec_remote id_ id_ m_view m_size m_res m_marshal.
 
 Definition lev := ev lcall.
 Definition lhist := hist lcall.
 Definition check_list : lhist -> bool :=
-  check_hist lstate lcall (list val) lstate l_init l_validate l_local' l_exec_remote id_ id_ l_view l_size RVals.
+  check_hist lstate lcall (list val) lstate l_init l_validate l_local' l_exec_remote id_ id_ l_view l_size RVals l_marshal.
 Definition explain_list :=
-  diagnose lstate lcall (list val) lstate l_init l_validate l_local' l_exec_remote id_ id_ l_view l_size RVals.
+  diagnose lstate lcall (list val) lstate l_init l_validate l_local' l_exec_remote id_ id_ l_view l_size RVals l_marshal.
